@@ -166,7 +166,7 @@ def run_shard(spec_):
                     w.get("clear", True), w.get("second"), w.get("presteps"))
         return {"evaluations": 1, "digests": [], "samples": [], "counters": counters, "violations": violations, "known": []}
     for p in range(spec_["problems"]):
-        spec = optmon.gen_problem(rng)
+        spec = optmon.gen_problem(rng, families=("lin", "quad", "trig", "pole", "incons", "rankdef", "pinned"))
         n = guarded(violations, spec, check_solve, spec, counters, violations)
         counters["problems"] = counters.get("problems", 0) + 1
         if n >= 2:
